@@ -34,7 +34,8 @@ class Obs:
 
 def run_sim(backend: str, cfg: Dict[str, Any], programs: Dict[str, list],
             scenario: Callable[[Any], Awaitable[Any]], state: Optional[dict] = None,
-            max_requests: Optional[int] = None, app_factory: Any = None) -> Obs:
+            max_requests: Optional[int] = None, app_factory: Any = None,
+            sched: int = 0) -> Obs:
     obs = Obs()
     obs.backend = backend
 
@@ -51,7 +52,7 @@ def run_sim(backend: str, cfg: Dict[str, Any], programs: Dict[str, list],
     else:
         from .trio_ import run_trio
 
-        res = run_trio(scenario, cfg, factory, state, max_requests)
+        res = run_trio(scenario, cfg, factory, state, max_requests, sched)
     obs.env = res.get("env")
     obs.value = res.get("value")
     obs.alive = res.get("alive", [])
